@@ -357,6 +357,7 @@ theorem exec_prov (T U : List Nat) (s : Sys) (t : Nat) (op : Op) (hsub : âˆ€ x â
   | toRecords x tr sp =>
     simp only [exec]
     split <;> exact noRep h rfl
+  | dropLocalSpans x => simp only [exec]; exact noRep (h.withLspans _) rfl
   | cycle =>
     simp only [exec]
     split
